@@ -138,8 +138,8 @@ PROPS['C06'] = dict(
     level_note='Trusted: rustc, Kani 0.68 + CBMC 6.11. Not decided: that every non-one-shot action calls handle_press(Other); the deferred release path through dequeue; stacking through Layout.',
     technique='contract harnesses (Kani/CBMC): symbolic pre-state, postcondition + frame asserted, must-fail twin, bound-attained covers',
     design_ref='DESIGN.md section 4, C06',
-    explanation='OneShotState::{handle_press, handle_release, tick_osh}: postconditions taken from the property statement (press variants end within the rapid-event delay; release variants end on the release of the first following key; pcancel on re-press; held one-shot acts as plain key; expiry clears everything so nothing later is affected).',
-    verus=[],
+    explanation='OneShotState::{handle_press, handle_release, tick_osh}: postconditions taken from the property statement (press variants end within the rapid-event delay; release variants end on the release of the first following key; pcancel on re-press; held one-shot acts as plain key; expiry clears everything so nothing later is affected). handle_release additionally has an UNBOUNDED Verus proof (unit oneshot: every table size up to the real capacity 16, including the eviction of the oldest deferred release) against the assumed ArrayDeque(Wrapping) contract; handle_press and tick_osh use closures / drain().collect() and stay bounded.',
+    verus=[dict(unit='oneshot')],
     kani=[
         H('keyberon', 'layout', 'c06_b_press_other', kind='bounded', bound='each table <= 3 coordinates', functions=[L + 'OneShotState::handle_press']),
         H('keyberon', 'layout', 'c06_b_press_oneshot_key', kind='bounded', bound='each table <= 3 coordinates'),
@@ -303,7 +303,7 @@ PROPS['C02'] = dict(
     technique='contract-based: Verus (overflow/bounds/unwrap/assert sites as obligations) + Kani default checks on the harnesses of C03 C05 C06 C09 C10 C11 C17',
     design_ref='DESIGN.md section 4, C02',
     explanation='union of panic-freedom obligations of every function under contract; the quick tier leaves out only the harnesses that are thorough-tier in their own property and the full-domain key table harness',
-    verus=[dict(unit='dynmacro', only=DYN_FUNCS), dict(unit='switch')],
+    verus=[dict(unit='dynmacro', only=DYN_FUNCS), dict(unit='switch'), dict(unit='oneshot')],
     kani=_c02_kani(),
     assumptions=[
         'NOT covered: Layout::{tick, do_action, event, resolve_coord, process_sequences}, ChordsV2::process_presses, every Kanata method, the parser',
